@@ -64,6 +64,10 @@ class Track(object):
         attached to the Track, but the note turns out not to be within the
         range of the Instrument.
         """
+        if isinstance(note, list):
+            # names without an octave are voiced by the container: the range
+            # check has to see the notes that will be placed
+            note = NoteContainer(note)
         if self.instrument != None and note is not None:
             if not self.instrument.can_play_notes(note):
                 raise InstrumentRangeError(
